@@ -219,6 +219,13 @@ def cells():
     add("R2", "final field assigned in a nested block of a constructor", "ANIMAL_MEMBERS",
         "public final int f3; public constructor(long z0) -> Animal { this.fin2 = 1; if (true) { this.f3 = 1; } }",
         "public int f3; public constructor(long z0) -> Animal { this.fin2 = 1; if (true) { this.f3 = 1; } }", wrap=False)
+    # a final field whose ONLY write in its (only) constructor is an increment / decrement / compound form: "assigned exactly once"
+    # must not be satisfied by f++ (seeded change C16-a4); a class of its own so that no other rule rejects the bad variant
+    for nm, ty, stmt in (("inc", "int", "n++;"), ("dec", "long", "n--;"),
+                         ("inc after use", "int", "echo(n); n++;")):
+        add("R2", f"final field whose only constructor write is {nm}", "TOP",
+            f"class Fz0 {{ public final {ty} n; public constructor() -> Fz0 {{ {stmt} }} }}",
+            f"class Fz0 {{ public {ty} n; public constructor() -> Fz0 {{ {stmt} }} }}", wrap=False)
     add("R2", "final field with initialiser assigned in a constructor", "ANIMAL_CTOR", "this.fin = 6;", "this.legs = 6;", wrap=False)
     add("R2", "inherited final field assigned in a derived constructor", "DOG_CTOR", "this.fin2 = 6;", "this.legs = 6;", wrap=False)
     add("R2", "final field missing in one constructor", "ANIMAL_MEMBERS", "public constructor(long z0) -> Animal { this.legs = 1; }",
